@@ -30,7 +30,8 @@ type schedReader struct {
 	pos         int
 	eofWithData bool
 	failAt      int
-	failWith    int // bytes delivered together with the error
+	failWith    int   // bytes delivered together with the error
+	failErr     error // the error to fail with (nil: errInjected)
 	reads       int
 	maxChunk    int
 	// faultReturned: the injected error has been returned to the caller at least once
@@ -60,6 +61,9 @@ func (r *schedReader) Read(p []byte) (int, error) {
 			r.pos += n
 			if r.pos >= r.failAt {
 				r.faultReturned = true
+				if r.failErr != nil {
+					return n, r.failErr
+				}
 				return n, errInjected
 			}
 			return n, nil
@@ -310,6 +314,18 @@ func inferColumn(name string, cells []string, conf csvConf) (model.Col, error) {
 			}
 			col.Cells = append(col.Cells, model.S(c))
 		}
+		if typ == "enum" {
+			// an enum column holds at most 255 distinct values
+			distinct := map[string]bool{}
+			for _, c := range col.Cells {
+				if !c.Null {
+					distinct[c.S] = true
+				}
+			}
+			if len(distinct) > 255 {
+				return col, fmt.Errorf("enum cardinality exceeded: %d distinct values", len(distinct))
+			}
+		}
 		return col, nil
 	}
 	return col, fmt.Errorf("unknown type %q", typ)
@@ -460,6 +476,43 @@ func genDoc(gen, param string) []byte {
 			sb.Write(body)
 		}
 		sb.WriteString(",z\n")
+		return []byte(sb.String())
+	case "longrow":
+		// header x,y; 3 short rows; one row whose first field has n bytes (quoted or not); then m short rows
+		n, quoted, m := atoi(0), atoi(1) == 1, atoi(2)
+		var sb strings.Builder
+		sb.WriteString("x,y\n")
+		for i := 0; i < 3; i++ {
+			fmt.Fprintf(&sb, "s%d,%d\n", i, i)
+		}
+		body := make([]byte, n)
+		for i := range body {
+			body[i] = byte('a' + i%26)
+		}
+		if quoted {
+			sb.WriteByte('"')
+			sb.Write(body[:n/2])
+			sb.WriteString(`""`)
+			sb.Write(body[n/2:])
+			sb.WriteByte('"')
+		} else {
+			sb.Write(body)
+		}
+		sb.WriteString(",3\n")
+		for i := 0; i < m; i++ {
+			fmt.Fprintf(&sb, "t%d,%d\n", i, 4+i)
+		}
+		return []byte(sb.String())
+	case "enumcard":
+		// one column x with k distinct values, every value once and then every value again
+		k := atoi(0)
+		var sb strings.Builder
+		sb.WriteString("x\n")
+		for pass := 0; pass < 2; pass++ {
+			for i := 0; i < k; i++ {
+				fmt.Fprintf(&sb, "v%03d\n", i)
+			}
+		}
 		return []byte(sb.String())
 	case "rows":
 		// n rows of "<i>,v<i>" below header a,b
@@ -711,6 +764,27 @@ func c12Run(ctx *core.Ctx) {
 			}
 		}
 	}
+	// ---- part 4b: one very long row between short ones (the read buffer has to grow several times,
+	// beyond 64 KiB, and is then used for many more rows)
+	for _, n := range []int{5000, 33000, 40000, 70000, 140000} {
+		for quoted := 0; quoted <= 1; quoted++ {
+			for _, m := range []int{0, 1, 40, 400} {
+				for _, k := range []int{0, 1000, 4096, 65536} {
+					if ctx.Mine() {
+						exec(csvCase{Gen: "longrow", Doc: fmt.Sprintf("%d,%d,%d", n, quoted, m), Chunk: k}, "longrow", true)
+					}
+				}
+			}
+		}
+	}
+	// ---- part 4c: enum columns at the cardinality limit (255 distinct values fit, more must be an error)
+	for _, k := range []int{254, 255, 256, 257} {
+		for _, chunk := range []int{0, 7} {
+			if ctx.Mine() {
+				exec(csvCase{Gen: "enumcard", Doc: strconv.Itoa(k), Conf: csvConf{Types: map[string]string{"x": "enum"}}, Chunk: chunk}, "enumcard", true)
+			}
+		}
+	}
 	// ---- part 5: RowCountHint resize
 	for _, n := range []int{999, 1000, 1001, 1002} {
 		for _, hint := range []int{0, 2000, 2001, 5000} {
@@ -768,7 +842,7 @@ func init() {
 		Level: "model_checking",
 		Rule: "case = (document, configuration, read schedule). Documents are generated from the RFC 4180 grammar (1-2 columns, 0-2 data rows below the header, every cell from a 9-14 element alphabet of unquoted/quoted/escaped cells, LF or CRLF, final line break or not, 1-4 delimiters); " +
 			"read schedules are enumerated by deviations from the default single read: all schedules with <= 2 (quick) / 3 (thorough) cut points, uniform k-byte readers, EOF with or after the last data; for documents of <= 11 (13) bytes ALL 2^(L-1) fragmentations, through ReadCSV and through the real scanner with initial buffer capacity 1,2,3,4,8 (overlay seam); " +
-			"configuration product (EmptyNull, IgnoreEmptyLines, Headers, Types, EnumValues, RenameDuplicateColumns, MissingColumnNameAlias) on 33 documents (incl. duplicate headers next to genuine x0/x1 headers and numeric edge cells: 19-digit integers around MaxInt64, signs, exponents, spellings of booleans, Inf/NaN); long fields 1015..4100 bytes with escaped quotes around the buffer boundaries; RowCountHint across the 1000-row resize. " +
+			"configuration product (EmptyNull, IgnoreEmptyLines, Headers, Types, EnumValues, RenameDuplicateColumns, MissingColumnNameAlias) on 33 documents (incl. duplicate headers next to genuine x0/x1 headers and numeric edge cells: 19-digit integers around MaxInt64, signs, exponents, spellings of booleans, Inf/NaN); long fields 1015..4100 bytes with escaped quotes around the buffer boundaries; one row of 5000..140000 bytes followed by 0..400 short rows; enum columns with 254..257 distinct values; RowCountHint across the 1000-row resize. " +
 			"Oracles: result(schedule) = result(single read); result = reference parser + type inference. Non-trivial = quoted cells or >= 2 data rows, and every tiny/long/config case; distinct by case content.",
 		Assumptions: []string{
 			"reference parser model/csv.go (state machine over the whole document) and type inference by strconv.Atoi/ParseFloat/ParseBool in that order; a CRLF inside a quoted field may be returned verbatim (RFC 4180) or as LF (encoding/csv); bare CR is not generated",
